@@ -654,8 +654,14 @@ class PartialTask(Task[P, R]):
         """
         Sets state from pickle.
         """
-        self.task = Task.__new__(Task)
-        self.task.__setstate__(state["task"])
+        # Rebuild the inner task with the class of the registered task (e.g. SchedulerTask).
+        inner = state["task"]
+        registered = get_task_registry().get(
+            Task._format_fullname(inner["namespace"], inner["name"])
+        )
+        task_class = type(registered) if registered else Task
+        self.task = task_class.__new__(task_class)
+        self.task.__setstate__(inner)
         self.args = state["args"]
         self.kwargs = state["kwargs"]
         super().__setstate__(state)
